@@ -69,14 +69,16 @@ type Net struct {
 	Bytes  map[string]int // bytes offered per direction
 	// Tap, if set, sees every datagram offered to the network (before faults), under the lock.
 	Tap func(ev NetEvent)
-	// Inject lets a scenario deliver forged datagrams.
-	closed bool
+	// TapDeliver sees every datagram at the moment it is handed to the receiving socket (after faults).
+	TapDeliver func(ev NetEvent)
+	latency    time.Duration
+	closed     bool
 }
 
 func NewNet(latency time.Duration, faults []Fault) (n *Net, client, server *simnet.SimConn) {
-	n = &Net{faults: faults, ord: map[string]int{}, Bytes: map[string]int{}, start: time.Now()}
+	n = &Net{faults: faults, ord: map[string]int{}, Bytes: map[string]int{}, start: time.Now(), latency: latency}
 	n.sim = &simnet.Simnet{Router: n}
-	settings := simnet.NodeBiDiLinkSettings{Latency: latency}
+	settings := simnet.NodeBiDiLinkSettings{} // latency is applied by this router so that deliveries can be observed
 	client = n.sim.NewEndpoint(ClientAddr, settings)
 	server = n.sim.NewEndpoint(ServerAddr, settings)
 	if err := n.sim.Start(); err != nil {
@@ -85,7 +87,12 @@ func NewNet(latency time.Duration, faults []Fault) (n *Net, client, server *simn
 	return n, client, server
 }
 
-func (n *Net) Close() { n.sim.Close() }
+func (n *Net) Close() {
+	n.mu.Lock()
+	n.closed = true
+	n.mu.Unlock()
+	n.sim.Close()
+}
 
 func (n *Net) AddNode(addr net.Addr, r simnet.PacketReceiver) { n.inner.AddNode(addr, r) }
 
@@ -140,48 +147,68 @@ func (n *Net) SendPacket(p simnet.Packet) error {
 		n.Tap(NetEvent{Dir: dir, Ord: ord, Len: len(p.Data), Fault: kind, Data: p.Data, T: now})
 	}
 	n.mu.Unlock()
+	q := p
+	q.Data = append([]byte(nil), p.Data...)
+	delay := n.latency
+	copies := 1
 	switch kind {
 	case "drop":
 		return nil
 	case "dup":
-		q := p
-		q.Data = append([]byte(nil), p.Data...)
-		n.inner.SendPacket(q)
+		copies = 2
 	case "delay":
-		q := p
-		q.Data = append([]byte(nil), p.Data...)
-		time.AfterFunc(time.Duration(arg)*time.Millisecond, func() { n.inner.SendPacket(q) })
-		return nil
+		delay += time.Duration(arg) * time.Millisecond
 	case "flip":
-		q := p
-		q.Data = append([]byte(nil), p.Data...)
 		bit := arg % (8 * len(q.Data))
 		q.Data[bit/8] ^= 1 << (bit % 8)
-		return n.inner.SendPacket(q)
 	case "trunc":
-		q := p
 		l := arg
-		if l >= len(p.Data) {
-			l = len(p.Data) - 1
+		if l >= len(q.Data) {
+			l = len(q.Data) - 1
 		}
 		if l < 1 {
 			l = 1
 		}
-		q.Data = append([]byte(nil), p.Data[:l]...)
-		return n.inner.SendPacket(q)
+		q.Data = q.Data[:l]
 	}
-	return n.inner.SendPacket(p)
+	for i := 0; i < copies; i++ {
+		n.deliverAfter(delay, dir, ord, kind, q)
+	}
+	return nil
 }
 
-// InjectTo delivers a forged datagram to the client ("s2c") or the server ("c2s"), bypassing faults.
+func (n *Net) deliverAfter(d time.Duration, dir string, ord int, fault string, q simnet.Packet) {
+	time.AfterFunc(d, func() {
+		n.mu.Lock()
+		if n.closed {
+			n.mu.Unlock()
+			return
+		}
+		if n.TapDeliver != nil {
+			n.TapDeliver(NetEvent{Dir: dir, Ord: ord, Len: len(q.Data), Fault: fault, Data: q.Data, T: time.Since(n.start)})
+		}
+		n.mu.Unlock()
+		n.inner.SendPacket(q)
+	})
+}
+
+// ResetOrdinals restarts the per-direction datagram counters (a new dial on the same network).
+func (n *Net) ResetOrdinals() {
+	n.mu.Lock()
+	n.ord = map[string]int{}
+	n.start = time.Now()
+	n.mu.Unlock()
+}
+
+// InjectTo delivers a forged datagram to the client ("s2c") or the server ("c2s") after the link latency, bypassing faults.
 func (n *Net) InjectTo(dir string, data []byte) {
-	p := simnet.Packet{Data: data}
+	p := simnet.Packet{Data: append([]byte(nil), data...)}
 	if dir == "s2c" {
 		p.From, p.To = ServerAddr, ClientAddr
 	} else {
 		p.From, p.To = ClientAddr, ServerAddr
 	}
-	n.inner.SendPacket(p)
+	n.deliverAfter(n.latency, dir, 0, "injected", p)
 }
 
 var (
